@@ -47,6 +47,11 @@ type c16Case struct {
 	// BigFile: the key file is longer than the line scanner's 4 KiB buffer: 1200 lines naming absent
 	// keys with the real keys at lines BigFile.. (0: ordinary small file)
 	BigFile int `json:"big_key_file_first_real_line,omitempty"`
+	// Qps: the configured rate limit (0: 1000, never reached); SlowScan k>0: the source answers the
+	// k-th SCAN page of the first database only after 3 s without traffic (several refill ticks of
+	// the rate limiter pass while its bucket is full)
+	Qps      int `json:"qps,omitempty"`
+	SlowScan int `json:"slow_scan_page,omitempty"`
 }
 
 func c16Entry(k c16Key) *mredis.Entry {
@@ -72,6 +77,9 @@ func (c c16Case) apply(keyfile string) {
 	conf.Options.TargetReplace = true
 	conf.Options.TargetVersion = ""
 	conf.Options.Qps = 1000
+	if c.Qps > 0 {
+		conf.Options.Qps = c.Qps
+	}
 	conf.Options.ScanSpecialCloud = ""
 	conf.Options.ScanKeyFile = keyfile
 	conf.Options.Metric = true
@@ -201,6 +209,9 @@ func c16Run(t *testing.T, c c16Case) (kind, what string) {
 				if cursor != "0" {
 					fmt.Sscanf(cursor, "%d", &pi)
 					pi /= 1000
+				}
+				if c.SlowScan > 0 && di == 0 && pi == c.SlowScan {
+					time.Sleep(3 * time.Second)
 				}
 				off := 0
 				for i := 0; i < pi && i < len(sizes); i++ {
@@ -520,6 +531,41 @@ func TestVerif_C16(t *testing.T) {
 								}
 							}
 						}
+					}
+				}
+			}
+		}
+	}
+	// rate limit: qps 1 or 2 with a source that pauses before one of the later pages (the limiter's
+	// bucket is full for several refill ticks, then more keys than the bucket holds arrive)
+	for _, keys := range keyspaces {
+		n0 := 0
+		for _, k := range keys {
+			if k.DB == keys[0].DB {
+				n0++
+			}
+		}
+		var rest [][]int
+		perDB := map[int]int{}
+		var dbIds []int
+		for _, k := range keys {
+			if perDB[k.DB] == 0 {
+				dbIds = append(dbIds, k.DB)
+			}
+			perDB[k.DB]++
+		}
+		sort.Ints(dbIds)
+		for _, d := range dbIds[1:] {
+			rest = append(rest, []int{perDB[d]})
+		}
+		for _, comp := range c16Compositions(perDB[dbIds[0]]) {
+			if len(comp) < 2 {
+				continue
+			}
+			for slow := 1; slow < len(comp); slow++ {
+				for _, qps := range []int{1, 2} {
+					for _, sc := range []uint32{1, 3} {
+						run(c16Case{Keys: keys, Pages: append([][]int{comp}, rest...), ScanCount: sc, Threshold: 1 << 30, KeyExists: "rewrite", TargetDB: -1, KeyFile: -1, Qps: qps, SlowScan: slow})
 					}
 				}
 			}
